@@ -16,7 +16,9 @@ It(root, sh, depth) == [rest |-> FALSE, root |-> root, sh |-> sh, depth |-> dept
 ItR(depth) == [rest |-> TRUE, root |-> <<"C">>, sh |-> "", depth |-> depth]
 ChordLists == {<<It(<<"C">>, "", 0), It(<<"A">>, "m", 0), ItR(0), It(<<"G">>, "7", 0)>>,
                <<It(<<"C">>, "M7", 0), It(<<"A">>, "m", 1), It(<<"D">>, "m", 2), It(<<"G">>, "7", 2), It(<<"F">>, "", 1)>>,
-               <<It(<<"E","b">>, "m7", 1), It(<<"B","b">>, "7", 1), It(<<"F","#">>, "dim", 1)>>}
+               <<It(<<"E","b">>, "m7", 1), It(<<"B","b">>, "7", 1), It(<<"F","#">>, "dim", 1)>>,
+               \* the same chord symbol more than once (flat and nested): each occurrence is its own chord in the track
+               <<It(<<"C">>, "", 0), It(<<"F">>, "", 0), ItR(0), It(<<"C">>, "", 0), It(<<"C">>, "", 1), It(<<"C">>, "", 1)>>}
 Acts ==
   {[op |-> "add_notes", arg |-> a, v |-> v, dflt |-> FALSE] : a \in {N1, CH, RS, HI, LO}, v \in Vals} \cup
   {[op |-> "add_notes", arg |-> a, v |-> [b |-> 4, d |-> 0, r |-> <<1,1>>], dflt |-> TRUE] : a \in {N1, RS}} \cup
